@@ -67,6 +67,8 @@ def tf_axioms(ctx, taylor=True, pairs=True, level=2):
         ax += [z3.Implies(z3.And(a > 0, a < PI), s > 0), z3.Implies(z3.And(a > -PI, a < 0), s < 0),
                z3.Implies(z3.And(a > -PI / 2, a < PI / 2), c > 0),
                z3.Implies(a == 0, z3.And(s == 0, c == 1)),
+               z3.Implies(a == PI / 2, z3.And(s == 1, c == 0)), z3.Implies(a == -PI / 2, z3.And(s == -1, c == 0)),
+               z3.Implies(a == PI, z3.And(s == 0, c == -1)), z3.Implies(a == -PI, z3.And(s == 0, c == -1)),
                z3.Implies(z3.And(a > PI / 2, a < 3 * PI / 2), c < 0),
                z3.Implies(a >= 0, s <= a), z3.Implies(a <= 0, s >= a)]
         if taylor:
@@ -156,6 +158,7 @@ def tf_axioms(ctx, taylor=True, pairs=True, level=2):
             ax.append(z3.Implies(L == b, a == E))
     if pairs:
         for (L1, a1), (L2, a2) in itertools.combinations(byf.get('log', []), 2):
+            ax.append(z3.Implies(z3.And(a1 > 0, a1 * a2 == 1), L1 + L2 == 0))
             ax.append(z3.Implies(z3.And(a1 > 0, a1 < a2), L1 < L2))
             ax.append(z3.Implies(z3.And(a2 > 0, a2 < a1), L2 < L1))
     for L, a in byf.get('log1p', []):
